@@ -38,10 +38,12 @@ impl<T> Probe<T> {
 
 impl<T: AsyncRead + Unpin> AsyncRead for Probe<T> {
     fn poll_read(mut self: Pin<&mut Self>, cx: &mut Context<'_>, buf: &mut ReadBuf<'_>) -> Poll<io::Result<()>> {
-        spin::progress();
         let before = buf.filled().len();
         let r = Pin::new(&mut self.inner).poll_read(cx, buf);
         let n = buf.filled().len() - before;
+        // a read that returns bytes, waits or fails is progress; one that reports end-of-stream again and again is not
+        // (a loop re-reading an ended transport must trip the spin bound - seeded change C08e)
+        if n > 0 || !matches!(r, Poll::Ready(Ok(()))) { spin::progress(); }
         self.pulled.fetch_add(n as u64, Ordering::Relaxed);
         r
     }
